@@ -5,3 +5,5 @@
 -/
 import VK.Props.C08Scored
 import VK.Props.C08Random
+import VK.Props.C08NeutralPairwise
+import VK.Props.C08NeutralDictator
